@@ -57,7 +57,7 @@ pub fn run(ctx: &Ctx) -> i32 {
     valid.push(None, Stmt::Stringz("data".into()));
     let valid_text = print_plain(&valid);
     let valid_image = encode(&valid, false).unwrap().raw();
-    for dest in ["absent", "existing", "existing-same-length", "default-absent", "default-existing", "default-same-length", "devfull", "missing-dir", "readonly-dir", "is-a-directory"] {
+    for dest in ["absent", "existing", "existing-same-length", "existing-new-image-plus-tail", "existing-new-image-cut-short", "existing-identical", "default-absent", "default-existing", "default-same-length", "devfull", "missing-dir", "readonly-dir", "is-a-directory"] {
         cases.push(Case { name: "valid".into(), text: valid_text.clone(), image: Some(valid_image.clone()), dest: dest.into() });
     }
     cases.push(Case { name: "valid-empty".into(), text: "".into(), image: Some(vec![0x3000]), dest: "existing".into() });
@@ -94,6 +94,18 @@ pub fn run(ctx: &Ctx) -> i32 {
             // an older object file of exactly the new length (written after the source, so it is newer)
             "existing-same-length" => {
                 sub.write("out.lc3", &vec![0x41; c.image.as_ref().map(|i| i.len() * 2).unwrap_or(8)]);
+                ("out.lc3".into(), Some(dir.join("out.lc3")))
+            }
+            // an older object file that begins with exactly the bytes to be written (a longer
+            // earlier version of the same program), is a prefix of them, or equals them
+            "existing-new-image-plus-tail" | "existing-new-image-cut-short" | "existing-identical" => {
+                let mut b = be_bytes(c.image.as_ref().unwrap());
+                match c.dest.as_str() {
+                    "existing-new-image-plus-tail" => b.extend([0x00, 0x21, 0x00, 0x21]),
+                    "existing-new-image-cut-short" => b.truncate(b.len() - 2),
+                    _ => {}
+                }
+                sub.write("out.lc3", &b);
                 ("out.lc3".into(), Some(dir.join("out.lc3")))
             }
             "default-same-length" => {
@@ -191,7 +203,7 @@ pub fn run(ctx: &Ctx) -> i32 {
         ctx,
         acc,
         Level { category: "fault_enumeration", bfs: None },
-        "fault enumeration against the real binary: (i) programs of n = 1..4 (thorough 6) statements whose only error is an out-of-range label reference at EVERY emission position k, and lexer / parser / backpatch errors after n-1 good statements, each with the destination absent and pre-existing with known bytes, given explicitly and defaulted (<stem>.lc3); (ii) a valid program with destination absent, pre-existing (longer, and of exactly the new length), defaulted, /dev/full, a path in a missing directory, a path in a read-only directory, a directory; (iii) a valid program with EVERY write(2) to the destination failed with ENOSPC, one at a time and from the K-th on (strace -e inject). Oracle: exit 0 => the destination holds the complete reference object file; exit != 0 => for (i) and (ii) the destination is byte-identical to before (absent stays absent); for (iii) too (destination pre-existing and absent). non-trivial = distinct fault cases that satisfied the oracle",
+        "fault enumeration against the real binary: (i) programs of n = 1..4 (thorough 6) statements whose only error is an out-of-range label reference at EVERY emission position k, and lexer / parser / backpatch errors after n-1 good statements, each with the destination absent and pre-existing with known bytes, given explicitly and defaulted (<stem>.lc3); (ii) a valid program with destination absent, pre-existing (longer, of exactly the new length, beginning with the new image, a prefix of it, identical to it), defaulted, /dev/full, a path in a missing directory, a path in a read-only directory, a directory; (iii) a valid program with EVERY write(2) to the destination failed with ENOSPC, one at a time and from the K-th on (strace -e inject). Oracle: exit 0 => the destination holds the complete reference object file; exit != 0 => for (i) and (ii) the destination is byte-identical to before (absent stays absent); for (iii) too (destination pre-existing and absent). non-trivial = distinct fault cases that satisfied the oracle",
         true,
         &["success-with-complete-file", "failure-leaves-destination"],
         &["strace fault injection models a device that stops accepting data mid-stream", "running as root: the read-only directory case may be writable and then counts as a plain success"],
